@@ -301,16 +301,65 @@ func (vc *VC) assumeInvariants(lr *loopRun, st *State) {
 	}
 }
 
+// directlyAssigned: variables that appear as the whole left-hand side of an
+// assignment (as opposed to being mutated through a pointer / method call).
+func (vc *VC) directlyAssigned(nodes ...ast.Node) map[types.Object]bool {
+	info := vc.cur().info
+	out := map[types.Object]bool{}
+	for _, n := range nodes {
+		if n == nil {
+			continue
+		}
+		ast.Inspect(n, func(n ast.Node) bool {
+			mark := func(e ast.Expr) {
+				if id, ok := ast.Unparen(e).(*ast.Ident); ok {
+					if o := info.ObjectOf(id); o != nil {
+						out[o] = true
+					}
+				}
+			}
+			switch x := n.(type) {
+			case *ast.AssignStmt:
+				for _, l := range x.Lhs {
+					mark(l)
+				}
+			case *ast.IncDecStmt:
+				mark(x.X)
+			case *ast.RangeStmt:
+				if x.Key != nil {
+					mark(x.Key)
+				}
+				if x.Value != nil {
+					mark(x.Value)
+				}
+			case *ast.UnaryExpr:
+				if x.Op == token.AND {
+					mark(x.X) // address taken: anything may happen
+				}
+			}
+			return true
+		})
+	}
+	return out
+}
+
 func (vc *VC) havoc(objs []types.Object, st *State, extra []string, pos token.Pos) {
 	for _, o := range objs {
 		old, ok := st.vars[o]
 		if !ok {
 			continue
 		}
-		if _, isTerm := old.(Term); !isTerm {
+		ot, isTerm := old.(Term)
+		if !isTerm {
 			continue
 		}
-		st.vars[o] = vc.freshConst(o.Name(), o.Type())
+		nv := vc.freshConst(o.Name(), o.Type())
+		// a pointer variable that is only mutated through (never reassigned)
+		// keeps pointing to the same object: nil-ness is preserved
+		if si := vc.ss.info[ot.Sort]; si != nil && si.Kind == "ptr" && vc.loopDirect != nil && !vc.loopDirect[o] {
+			vc.assume(tBool(true), Term{fmt.Sprintf("(= ((_ is ref.%s) %s) ((_ is ref.%s) %s))", ot.Sort, nv.S, ot.Sort, ot.S), SBool, nil})
+		}
+		st.vars[o] = nv
 	}
 	for _, name := range extra {
 		if o := vc.lookupLocal(name, pos); o != nil {
@@ -369,6 +418,7 @@ func (vc *VC) execFor(x *ast.ForStmt, st *State, label string) *State {
 	}
 	lr := &loopRun{ord: ord, spec: vc.loopSpec(ord), pos: x.Pos(), ghost: map[string]Value{}, entry: st.clone()}
 	mods := vc.modifiedVars(x.Body, x.Post, x.Cond)
+	vc.loopDirect = vc.directlyAssigned(x.Body, x.Post)
 	lr.typeInvs = vc.typeInvVars(mods)
 	vc.checkInvariants(lr, st, "inv-init")
 	head := st.clone()
@@ -419,6 +469,7 @@ func (vc *VC) execRange(x *ast.RangeStmt, st *State, label string) *State {
 		coll = vc.evalExpr(x.X, st)
 	}
 	mods := vc.modifiedVars(x.Body)
+	vc.loopDirect = vc.directlyAssigned(x.Body)
 	lr.typeInvs = vc.typeInvVars(mods)
 	bindKV := func(s *State, k, v Value) {
 		if x.Key != nil {
